@@ -45,6 +45,8 @@ def run(repo, chk):
     dictpile_obligations(repo, chk, "R16.1")
     from .shared import annotation_cache_obligations
     annotation_cache_obligations(repo, chk, "R16.2")
+    from .shared import hasval_obligations
+    hasval_obligations(repo, chk, "R16.3", "a supplier for a declared-only variable on `outer > inner(a=1) > w` declines where the condition does not hold, and the call then fails with the name error")
     from .shared import intercept_combination_obligations
     intercept_combination_obligations(repo, chk, "R16.3")
 
